@@ -248,6 +248,9 @@ def header_item(draw, sec, dup_pool, allow_blank=True):
     else:
         m = draw(S.mnemonic(allow_inner_blank=True))
     u = draw(S.unit(colon=False))
+    if draw(st.integers(0, 11)) == 0:
+        # a unit that opens with one kind of bracket and closes with the other is not a bracketed unit: it is kept whole
+        u = draw(st.sampled_from(["[ft)", "(m]", "[0,1)", "(0,100]", "[deg)"]))
     if blank:
         u = u.replace(".", "")
         if not S._ok_unit(u):
